@@ -175,7 +175,7 @@ func c04Walk(c *Ctx, pp, tag, name string, write bool) {
 		}
 	}
 	// ---- list steps
-	nList := 0
+	nList, nTagInHelper := 0, 0
 	allInstrs(f, func(in ssa.Instruction) {
 		ia, ok := in.(*ssa.IndexAddr)
 		if !ok || ia.X != listV {
@@ -220,7 +220,42 @@ func c04Walk(c *Ctx, pp, tag, name string, write bool) {
 				keyVal = unwrapMakeIface(call.Call.Args[0])
 			}
 		}
-		ob(n+" counts a negative index from the end of the same list", ia.Pos(), okNorm, "index = phi(k, len(cur)+k), the sum taken exactly when k < 0, k = cast.ToInt(key)")
+		// … or the same normalisation done by a helper `h(k, len(cur)) (index, ok)` whose ok was tested here
+		viaHelper := false
+		var hs c04IdxSpec
+		if !okNorm {
+			if hs = c04IndexSpec(ia, idx, listV, kInt); hs.ok {
+				okNorm, viaHelper = hs.norm, true
+				keyVal = hs.keyVal
+				if hs.tagInside {
+					nTagInHelper++
+				}
+			}
+		}
+		if viaHelper {
+			ob(n+" counts a negative index from the end of the same list", ia.Pos(), okNorm, hs.detail)
+		} else {
+			ob(n+" counts a negative index from the end of the same list", ia.Pos(), okNorm, "index = phi(k, len(cur)+k), the sum taken exactly when k < 0, k = cast.ToInt(key)")
+		}
+		if viaHelper {
+			bounded := hs.norm
+			ob(n+" is dominated by 0 ≤ index < len(cur)", ia.Pos(), bounded, "the helper reported success, and its every successful outcome yields 0 ≤ v < len(cur)")
+			// the not-ok edge is an error
+			okRej := hs.rejOther
+			ob(n+" out-of-range index is an error", ia.Pos(), okRej && bounded, "the edge taken when the helper reports failure returns an error — never another element")
+			okTag := hs.tagInside
+			if !okTag && keyVal != nil {
+				okTag = hasFact(ia.Block(), func(cond ssa.Value, pol bool) bool {
+					bo, ok := cond.(*ssa.BinOp)
+					if !ok || !sameKey(bo.X, keyVal) {
+						return false
+					}
+					return tagIs(bo.X, kInt)(cond, pol)
+				})
+			}
+			ob(n+" is taken only for an integer key", ia.Pos(), okTag, "dominated by keyTag == Int of the key whose value is converted; the failing edge is checked below")
+			return
+		}
 		// range guard on the final index against the same list
 		lo := hasFact(ia.Block(), func(cond ssa.Value, pol bool) bool {
 			bo, ok := cond.(*ssa.BinOp)
@@ -357,7 +392,7 @@ func c04Walk(c *Ctx, pp, tag, name string, write bool) {
 		}
 		ob(fmt.Sprintf("key tag test #%d rejects the wrong key type", nTag), iff.Pos(), rejecting(fail), "a wrongly typed key is an error")
 	})
-	ob("has one list step and the map steps", f.Pos(), nList >= 1 && nMap >= 1 && nTag == 2, fmt.Sprintf("%d list accesses, %d map accesses, %d key tag tests", nList, nMap, nTag))
+	ob("has one list step and the map steps", f.Pos(), nList >= 1 && nMap >= 1 && (nTag == 2 || (nTag == 1 && nTagInHelper == nList)), fmt.Sprintf("%d list accesses, %d map accesses, %d key tag tests, %d in the index helper", nList, nMap, nTag, nTagInHelper))
 	if write {
 		c04WalkWrite(c, f, who, mapV, listV)
 	} else {
@@ -387,6 +422,87 @@ func c04Walk(c *Ctx, pp, tag, name string, write bool) {
 		}
 		ob("advances to the element just selected", f.Pos(), adv == 2, fmt.Sprintf("%d of the loop-carried values of `cur` are the looked-up map value / the indexed list element", adv))
 	}
+}
+
+// c04IndexHelper: idx is result #0 of h(k, len(list)) (or h(key, len(list)) converting the key itself) whose result
+// #1 was tested; inside h the returned index is phi(k, length+k) with the sum taken exactly when k < 0. Returns the
+// key value whose integer conversion is k.
+func c04IndexHelper(at ssa.Instruction, idx ssa.Value, listV ssa.Value) (ssa.Value, bool) {
+	ex, ok := idx.(*ssa.Extract)
+	if !ok || ex.Index != 0 {
+		return nil, false
+	}
+	call, ok := ex.Tuple.(*ssa.Call)
+	if !ok {
+		return nil, false
+	}
+	h := call.Call.StaticCallee()
+	if h == nil || len(h.Blocks) == 0 || len(h.Params) != 2 || len(call.Call.Args) != 2 || !isLenOf(call.Call.Args[1], listV) {
+		return nil, false
+	}
+	pK, pLen := h.Params[0], h.Params[1]
+	// k inside the helper: the parameter itself, or cast.ToInt(parameter)
+	isK := func(v ssa.Value) bool {
+		if v == ssa.Value(pK) {
+			return true
+		}
+		if c2, ok := v.(*ssa.Call); ok && c2.Call.StaticCallee() != nil && c2.Call.StaticCallee().Name() == "ToInt" && len(c2.Call.Args) == 1 {
+			return unwrapMakeIface(c2.Call.Args[0]) == ssa.Value(pK) || c2.Call.Args[0] == ssa.Value(pK)
+		}
+		return false
+	}
+	okAll, n := true, 0
+	allInstrs(h, func(in ssa.Instruction) {
+		ret, isR := in.(*ssa.Return)
+		if !isR || len(ret.Results) != 2 {
+			return
+		}
+		if c, isC := ret.Results[1].(*ssa.Const); isC && c.Value != nil && c.Value.ExactString() == "false" {
+			return
+		}
+		n++
+		ph, isP := ret.Results[0].(*ssa.Phi)
+		if !isP || len(ph.Edges) != 2 {
+			okAll = false
+			return
+		}
+		var k0 ssa.Value
+		var sum *ssa.BinOp
+		for _, e := range ph.Edges {
+			if bo, ok := e.(*ssa.BinOp); ok && bo.Op == token.ADD {
+				sum = bo
+			} else {
+				k0 = e
+			}
+		}
+		if k0 == nil || sum == nil || !isK(k0) {
+			okAll = false
+			return
+		}
+		if !((sum.X == ssa.Value(pLen) && sum.Y == k0) || (sum.Y == ssa.Value(pLen) && sum.X == k0)) {
+			okAll = false
+			return
+		}
+		if !hasFact(sum.Block(), func(cond ssa.Value, pol bool) bool {
+			bo, ok := cond.(*ssa.BinOp)
+			if !ok || bo.X != k0 {
+				return false
+			}
+			z, isC := constInt(bo.Y)
+			return isC && z == 0 && ((bo.Op == token.LSS && pol) || (bo.Op == token.GEQ && !pol))
+		}) {
+			okAll = false
+		}
+	})
+	if !okAll || n == 0 {
+		return nil, false
+	}
+	// the key: the helper's first argument, or what the caller converted with cast.ToInt
+	a0 := call.Call.Args[0]
+	if c2, ok := a0.(*ssa.Call); ok && c2.Call.StaticCallee() != nil && c2.Call.StaticCallee().Name() == "ToInt" && len(c2.Call.Args) == 1 {
+		return unwrapMakeIface(c2.Call.Args[0]), true
+	}
+	return unwrapMakeIface(a0), true
 }
 
 // c04NilResult: the return is the success result "nil with tag Nil" (v1: (nil, Nil, nil); v2: ReturnAppend(V{nil, Nil}) then nil).
@@ -441,7 +557,7 @@ func c04WalkWrite(c *Ctx, f *ssa.Function, who string, mapV, listV ssa.Value) {
 	lastStep := func(b *ssa.BasicBlock) bool {
 		return hasFact(b, func(cond ssa.Value, pol bool) bool {
 			bo, ok := cond.(*ssa.BinOp)
-			if !ok || bo.Op != token.EQL || !pol {
+			if !ok || !((bo.Op == token.EQL && pol) || (bo.Op == token.NEQ && !pol)) {
 				return false
 			}
 			// idx+1 == len(index)
@@ -594,93 +710,146 @@ func c04SliceCall(c *Ctx, pp, tag string) {
 		}
 	}
 	loops := 0
-	for _, l := range naturalLoops(f) {
-		// header: phi i (first, i+step), phi n (0, n+1), cond n < count
-		var iPhi, nPhi *ssa.Phi
-		for _, in := range l.Header.Instrs {
-			ph, ok := in.(*ssa.Phi)
-			if !ok {
-				continue
-			}
-			for _, e := range ph.Edges {
-				if first != nil && e == ssa.Value(first) {
-					iPhi = ph
-				}
-				if k, isC := constInt(e); isC && k == 0 && isIntType(ph.Type()) {
-					nPhi = ph
-				}
-			}
+	type loopCtx struct {
+		g            *ssa.Function
+		first, count ssa.Value
+		step         ssa.Value
+		seqs         []ssa.Value
+	}
+	ctxs := []loopCtx{{f, valueOrNil(first), valueOrNil(count), stepArg, seqs}}
+	// helpers that receive first and count (the element loops may have been moved out)
+	allInstrs(f, func(in ssa.Instruction) {
+		hc, ok := in.(*ssa.Call)
+		if !ok || hc == call {
+			return
 		}
-		if iPhi == nil {
-			continue
+		h := hc.Call.StaticCallee()
+		if h == nil || h.Pkg != f.Pkg || len(h.Blocks) == 0 {
+			return
 		}
-		loops++
-		n := fmt.Sprintf("element loop #%d", loops)
-		okAdv := false
-		for _, e := range iPhi.Edges {
-			if bo, ok := e.(*ssa.BinOp); ok && bo.Op == token.ADD && ((bo.X == ssa.Value(iPhi) && bo.Y == stepArg) || (bo.Y == ssa.Value(iPhi) && bo.X == stepArg)) {
-				okAdv = true
+		lc := loopCtx{g: h}
+		for k, a := range hc.Call.Args {
+			if k >= len(h.Params) {
+				break
 			}
-		}
-		ob(n+" starts at first and advances by the step passed to SliceIndices", l.Header.Instrs[0].Pos(), okAdv, "i = phi(first, i + stepInt)")
-		okCnt := false
-		if nPhi != nil && count != nil {
-			inc := false
-			for _, e := range nPhi.Edges {
-				if bo, ok := e.(*ssa.BinOp); ok && bo.Op == token.ADD && bo.X == ssa.Value(nPhi) {
-					if k, isC := constInt(bo.Y); isC && k == 1 {
-						inc = true
+			switch {
+			case first != nil && a == ssa.Value(first):
+				lc.first = h.Params[k]
+			case count != nil && a == ssa.Value(count):
+				lc.count = h.Params[k]
+			case a == stepArg:
+				lc.step = h.Params[k]
+			default:
+				for _, sq := range seqs {
+					if a == sq {
+						lc.seqs = append(lc.seqs, h.Params[k])
 					}
 				}
-			}
-			if iff, ok := l.Header.Instrs[len(l.Header.Instrs)-1].(*ssa.If); ok {
-				if bo, ok := iff.Cond.(*ssa.BinOp); ok && bo.Op == token.LSS && bo.X == ssa.Value(nPhi) && bo.Y == ssa.Value(count) && l.Blocks[l.Header.Succs[0]] && !l.Blocks[l.Header.Succs[1]] {
-					okCnt = inc
-				}
-			}
-		}
-		ob(n+" selects exactly count elements", l.Header.Instrs[0].Pos(), okCnt, "n = phi(0, n+1); the loop continues while n < count")
-		// the element appended is seq[i] of a sliced sequence
-		okElem, elems := false, 0
-		for b := range l.Blocks {
-			for _, in := range b.Instrs {
-				var x, idx ssa.Value
-				switch e := in.(type) {
-				case *ssa.Lookup:
-					x, idx = e.X, e.Index
-				case *ssa.Index:
-					x, idx = e.X, e.Index
-				case *ssa.IndexAddr:
-					x, idx = e.X, e.Index
-				default:
-					continue
-				}
-				elems++
-				isSeq := false
-				if ph, ok := x.(*ssa.Phi); ok {
+				if ph, isP := a.(*ssa.Phi); isP {
 					for _, e := range ph.Edges {
-						for _, s := range seqs {
-							if e == s {
-								isSeq = true
+						for _, sq := range seqs {
+							if e == sq {
+								lc.seqs = append(lc.seqs, h.Params[k])
 							}
 						}
 					}
 				}
-				for _, s := range seqs {
-					if x == s {
-						isSeq = true
-					}
-				}
-				if _, isAlloc := x.(*ssa.Alloc); isAlloc { // the varargs array of append
-					elems--
-					continue
-				}
-				if isSeq && idx == ssa.Value(iPhi) {
-					okElem = true
-				}
 			}
 		}
-		ob(n+" appends the element at i of the sliced sequence", l.Header.Instrs[0].Pos(), okElem && elems == 1, fmt.Sprintf("%d element accesses in the loop", elems))
+		if lc.first != nil && lc.count != nil {
+			ctxs = append(ctxs, lc)
+		}
+	})
+	for _, lc := range ctxs {
+		first, count, stepArg, seqs := lc.first, lc.count, lc.step, lc.seqs
+		for _, l := range naturalLoops(lc.g) {
+			// header: phi i (first, i+step), phi n (0, n+1), cond n < count
+			var iPhi, nPhi *ssa.Phi
+			for _, in := range l.Header.Instrs {
+				ph, ok := in.(*ssa.Phi)
+				if !ok {
+					continue
+				}
+				for _, e := range ph.Edges {
+					if first != nil && e == first {
+						iPhi = ph
+					}
+					if k, isC := constInt(e); isC && k == 0 && isIntType(ph.Type()) {
+						nPhi = ph
+					}
+				}
+			}
+			if iPhi == nil {
+				continue
+			}
+			loops++
+			n := fmt.Sprintf("element loop #%d", loops)
+			okAdv := false
+			for _, e := range iPhi.Edges {
+				if bo, ok := e.(*ssa.BinOp); ok && bo.Op == token.ADD && ((bo.X == ssa.Value(iPhi) && bo.Y == stepArg) || (bo.Y == ssa.Value(iPhi) && bo.X == stepArg)) {
+					okAdv = true
+				}
+			}
+			ob(n+" starts at first and advances by the step passed to SliceIndices", l.Header.Instrs[0].Pos(), okAdv, "i = phi(first, i + stepInt)")
+			okCnt := false
+			if nPhi != nil && count != nil {
+				inc := false
+				for _, e := range nPhi.Edges {
+					if bo, ok := e.(*ssa.BinOp); ok && bo.Op == token.ADD && bo.X == ssa.Value(nPhi) {
+						if k, isC := constInt(bo.Y); isC && k == 1 {
+							inc = true
+						}
+					}
+				}
+				if iff, ok := l.Header.Instrs[len(l.Header.Instrs)-1].(*ssa.If); ok {
+					if bo, ok := iff.Cond.(*ssa.BinOp); ok && bo.Op == token.LSS && bo.X == ssa.Value(nPhi) && bo.Y == count && l.Blocks[l.Header.Succs[0]] && !l.Blocks[l.Header.Succs[1]] {
+						okCnt = inc
+					}
+				}
+			}
+			ob(n+" selects exactly count elements", l.Header.Instrs[0].Pos(), okCnt, "n = phi(0, n+1); the loop continues while n < count")
+			// the element appended is seq[i] of a sliced sequence
+			okElem, elems := false, 0
+			for b := range l.Blocks {
+				for _, in := range b.Instrs {
+					var x, idx ssa.Value
+					switch e := in.(type) {
+					case *ssa.Lookup:
+						x, idx = e.X, e.Index
+					case *ssa.Index:
+						x, idx = e.X, e.Index
+					case *ssa.IndexAddr:
+						x, idx = e.X, e.Index
+					default:
+						continue
+					}
+					elems++
+					isSeq := false
+					if ph, ok := x.(*ssa.Phi); ok {
+						for _, e := range ph.Edges {
+							for _, s := range seqs {
+								if e == s {
+									isSeq = true
+								}
+							}
+						}
+					}
+					for _, s := range seqs {
+						if x == s {
+							isSeq = true
+						}
+					}
+					if _, isAlloc := x.(*ssa.Alloc); isAlloc { // the varargs array of append
+						elems--
+						continue
+					}
+					if isSeq && idx == ssa.Value(iPhi) {
+						okElem = true
+					}
+				}
+			}
+			ob(n+" appends the element at i of the sliced sequence", l.Header.Instrs[0].Pos(), okElem && elems == 1, fmt.Sprintf("%d element accesses in the loop", elems))
+		}
 	}
 	ob("has one element loop per sequence kind", f.Pos(), loops == 2, fmt.Sprintf("%d loops driven by SliceIndices' first/count", loops))
 	// the list result is a fresh list: never the source list or a sub-slice sharing its storage
@@ -708,6 +877,15 @@ func c04SliceCall(c *Ctx, pp, tag string) {
 			case *ssa.Call:
 				if builtinName(x) == "append" {
 					walk(x.Call.Args[0])
+					return
+				}
+				// a same-package helper: what it returns must be fresh in turn
+				if h := x.Call.StaticCallee(); h != nil && h.Pkg == f.Pkg && len(h.Blocks) > 0 && h.Signature.Results().Len() == 1 {
+					allInstrs(h, func(i2 ssa.Instruction) {
+						if ret, isR := i2.(*ssa.Return); isR && len(ret.Results) == 1 {
+							walk(ret.Results[0])
+						}
+					})
 					return
 				}
 				bad = "result of " + path(x)
@@ -778,7 +956,68 @@ func reachesInstr(from *ssa.BasicBlock, to ssa.Instruction) bool {
 }
 
 // c04BoundArg: arg is phi(nil, new int) where the int is cast.ToInt of a value whose provenance names expr.<which>.
+func valueOrNil(e *ssa.Extract) ssa.Value {
+	if e == nil {
+		return nil
+	}
+	return e
+}
+
 func c04BoundArg(arg ssa.Value, which string) (bool, string) {
+	// the conversion may sit in a helper `h(…, val, …) (*int, err)`: nil for an omitted bound, else &ToInt(val)
+	if ex, isE := arg.(*ssa.Extract); isE && ex.Index == 0 {
+		if hc, isC := ex.Tuple.(*ssa.Call); isC && hc.Call.StaticCallee() != nil && len(hc.Call.StaticCallee().Blocks) > 0 {
+			h := hc.Call.StaticCallee()
+			hasNil, hasVal, bad := false, false, ""
+			var valParam *ssa.Parameter
+			allInstrs(h, func(in ssa.Instruction) {
+				ret, isR := in.(*ssa.Return)
+				if !isR || len(ret.Results) < 2 || retError(ret) == "nonnil" {
+					return
+				}
+				var walk func(v ssa.Value)
+				walk = func(v ssa.Value) {
+					switch x := v.(type) {
+					case *ssa.Phi:
+						for _, e := range x.Edges {
+							walk(e)
+						}
+					case *ssa.Alloc:
+						cl, ok := singleStore(x).(*ssa.Call)
+						if !ok || cl.Call.StaticCallee() == nil || cl.Call.StaticCallee().Name() != "ToInt" {
+							bad = "the int is not cast.ToInt(…)"
+							return
+						}
+						if p, isP := unwrapMakeIface(cl.Call.Args[0]).(*ssa.Parameter); isP {
+							valParam, hasVal = p, true
+						} else {
+							bad = "the converted value is not the helper's operand parameter"
+						}
+					default:
+						if isNilConst(v) {
+							hasNil = true
+						} else {
+							bad = "result is neither nil nor a fresh int"
+						}
+					}
+				}
+				walk(ret.Results[0])
+			})
+			if bad != "" || !hasNil || !hasVal {
+				return false, "helper " + h.Name() + ": " + bad
+			}
+			for k, prm := range h.Params {
+				if prm == valParam && k < len(hc.Call.Args) {
+					src := provenanceOperand(unwrapMakeIface(hc.Call.Args[k]))
+					if !strings.Contains(src, "expr."+which) {
+						return false, "converted operand comes from " + src + " — expected expr." + which
+					}
+					return true, "through " + h.Name() + ": converted operand comes from " + src
+				}
+			}
+			return false, "helper operand not found"
+		}
+	}
 	ph, ok := arg.(*ssa.Phi)
 	if !ok {
 		return false, "argument is not phi(nil, &v)"
@@ -1585,7 +1824,19 @@ func c04Literals(c *Ctx, pp, tag string) {
 			if !ok || cl.Call.StaticCallee() == nil {
 				return
 			}
-			if n := cl.Call.StaticCallee().Name(); n == "RunStmt" || n == "RunExpr" {
+			n := cl.Call.StaticCallee().Name()
+			// the evaluator itself, or a same-package helper that hands its node parameter to it exactly once
+			viaHelper := false
+			if n != "RunStmt" && n != "RunExpr" && cl.Call.StaticCallee().Pkg == f.Pkg {
+				for _, ev := range []string{"RunStmt", "RunExpr"} {
+					if evf := f.Pkg.Func(ev); evf != nil {
+						if _, is := evaluatedChild(cl, evf); is {
+							viaHelper = true
+						}
+					}
+				}
+			}
+			if n == "RunStmt" || n == "RunExpr" || viaHelper {
 				evals++
 				if len(loops) == 1 && !loops[0].Blocks[cl.Block()] {
 					inLoop = false
@@ -1812,24 +2063,93 @@ func c04Alias(c *Ctx) {
 	if as != nil {
 		r.Fn(relName(as))
 		okPass, calls := true, 0
-		allInstrs(as, func(in ssa.Instruction) {
-			cl, ok := in.(*ssa.Call)
-			if !ok || cl.Call.StaticCallee() == nil {
-				return
+		// the value handed to SetVarb is the evaluator's result itself: directly, or carried through a freshly built
+		// Varb / a parameter of a helper that RunAssignmentExpr calls
+		var fromEval func(v ssa.Value, fn *ssa.Function, via *ssa.Call, depth int) bool
+		fromEval = func(v ssa.Value, fn *ssa.Function, via *ssa.Call, depth int) bool {
+			if depth > 4 {
+				return false
 			}
-			switch cl.Call.StaticCallee().Name() {
-			case "SetVarb":
-				calls++
-				v := unwrapMakeIface(cl.Call.Args[2])
-				if ex, ok := v.(*ssa.Extract); ok {
-					if src, ok := ex.Tuple.(*ssa.Call); ok && src.Call.StaticCallee() != nil {
-						switch src.Call.StaticCallee().Name() {
-						case "RunStmt", "runAssignArith":
-							return
+			v = unwrapMakeIface(v)
+			switch x := v.(type) {
+			case *ssa.Extract:
+				if src, ok := x.Tuple.(*ssa.Call); ok && src.Call.StaticCallee() != nil {
+					switch src.Call.StaticCallee().Name() {
+					case "RunStmt", "runAssignArith":
+						return true
+					}
+				}
+			case *ssa.Parameter:
+				if via == nil {
+					return false
+				}
+				for k, prm := range fn.Params {
+					if prm == x && k < len(via.Call.Args) {
+						return fromEval(via.Call.Args[k], via.Parent(), nil, depth+1)
+					}
+				}
+			case *ssa.UnOp:
+				if fa, ok := x.X.(*ssa.FieldAddr); ok && fieldName(fa) == "Value" && namedOf(fa.X.Type()) == "runtime.Varb" {
+					switch base := fa.X.(type) {
+					case *ssa.Alloc:
+						for _, ref := range *base.Referrers() {
+							if fa2, ok := ref.(*ssa.FieldAddr); ok && fieldName(fa2) == "Value" {
+								for _, rr := range *fa2.Referrers() {
+									if st, ok := rr.(*ssa.Store); ok && st.Addr == ssa.Value(fa2) {
+										return fromEval(st.Val, fn, via, depth+1)
+									}
+								}
+							}
+						}
+					case *ssa.Parameter:
+						if via == nil {
+							return false
+						}
+						for k, prm := range fn.Params {
+							if prm == base && k < len(via.Call.Args) {
+								if al, ok := via.Call.Args[k].(*ssa.Alloc); ok {
+									for _, ref := range *al.Referrers() {
+										if fa2, ok := ref.(*ssa.FieldAddr); ok && fieldName(fa2) == "Value" {
+											for _, rr := range *fa2.Referrers() {
+												if st, ok := rr.(*ssa.Store); ok && st.Addr == ssa.Value(fa2) {
+													return fromEval(st.Val, via.Parent(), nil, depth+1)
+												}
+											}
+										}
+									}
+								}
+							}
 						}
 					}
 				}
-				okPass = false
+			case *ssa.Phi:
+				for _, e := range x.Edges {
+					if !fromEval(e, fn, via, depth+1) {
+						return false
+					}
+				}
+				return len(x.Edges) > 0
+			}
+			return false
+		}
+		scan := func(g *ssa.Function, via *ssa.Call) {
+			allInstrs(g, func(in ssa.Instruction) {
+				cl, ok := in.(*ssa.Call)
+				if !ok || cl.Call.StaticCallee() == nil || cl.Call.StaticCallee().Name() != "SetVarb" {
+					return
+				}
+				calls++
+				if !fromEval(cl.Call.Args[2], g, via, 0) {
+					okPass = false
+				}
+			})
+		}
+		scan(as, nil)
+		allInstrs(as, func(in ssa.Instruction) {
+			if hc, ok := in.(*ssa.Call); ok {
+				if h := hc.Call.StaticCallee(); h != nil && h.Pkg == as.Pkg && len(h.Blocks) > 0 && strings.HasPrefix(h.Name(), "runAssign") && h.Name() != "runAssignArith" {
+					scan(h, hc)
+				}
 			}
 		})
 		r.Ob("ALIAS", "v1 assignment binds the evaluated value itself", t.Pos(as.Pos()), okPass && calls >= 2, fmt.Sprintf("%d SetVarb calls, each given the evaluator's result without copying", calls))
@@ -1890,4 +2210,162 @@ func notFreshContainer(v ssa.Value) string {
 	}
 	walk(v)
 	return bad
+}
+
+// c04IndexSpec: the list index is one result of a two-result helper h whose other result (bool tested true / error
+// tested nil) reports success. h — with whatever helpers of its own, inlined — is specialised with the list, its
+// length, the key and the key's tag as symbols; every outcome that reports success must be one of
+//
+//	v = K            under  keyTag == Int (if h receives the tag), !(K < 0), K < len(list)
+//	v = len(list)+K  under  keyTag == Int (if h receives the tag),   K < 0 , !(v < 0), v < len(list)
+//
+// with K = cast.ToInt(key). That is the index rule (negative counts from the end, range-checked against the same
+// list), decided on the helper's semantics rather than on where its statements sit.
+type c04IdxSpec struct {
+	ok        bool // the shape applies (a helper result with a tested success marker)
+	norm      bool // every successful outcome is K or len+K as above, bounds included
+	tagInside bool // the helper receives the key's tag and every successful outcome requires it to be Int
+	rejOther  bool // the caller's not-success edge returns an error
+	keyVal    ssa.Value
+	detail    string
+}
+
+func c04IndexSpec(at ssa.Instruction, idx ssa.Value, listV ssa.Value, kInt int64) c04IdxSpec {
+	var res c04IdxSpec
+	ex, ok := idx.(*ssa.Extract)
+	if !ok || ex.Index > 1 {
+		return res
+	}
+	call, ok := ex.Tuple.(*ssa.Call)
+	if !ok {
+		return res
+	}
+	h := call.Call.StaticCallee()
+	if h == nil || len(h.Blocks) == 0 || h.Signature.Results().Len() != 2 || !inModule(h) {
+		return res
+	}
+	k, m := ex.Index, 1-ex.Index
+	markBool := false
+	if b, isB := h.Signature.Results().At(m).Type().Underlying().(*types.Basic); isB && b.Kind() == types.Bool {
+		markBool = true
+	} else if !isNillable(h.Signature.Results().At(m).Type()) {
+		return res
+	}
+	// success tested on the way here; the other edge rejects
+	for _, ec := range controlling(at.Block()) {
+		var e2 *ssa.Extract
+		succ := false
+		if markBool {
+			e2, _ = ec.Cond.(*ssa.Extract)
+			succ = ec.Pol
+		} else if bo, isB := ec.Cond.(*ssa.BinOp); isB && isNilConst(bo.Y) {
+			e2, _ = bo.X.(*ssa.Extract)
+			succ = (bo.Op == token.EQL && ec.Pol) || (bo.Op == token.NEQ && !ec.Pol)
+		}
+		if e2 != nil && e2.Tuple == ex.Tuple && e2.Index == m && succ {
+			res.ok = true
+			res.rejOther = rejectingOther(ec)
+		}
+	}
+	if !res.ok {
+		return res
+	}
+	var args []sval
+	hasTag := false
+	for i, a := range call.Call.Args {
+		switch {
+		case sameVal(a, listV):
+			args = append(args, symv("list"))
+		case isLenOf(a, listV):
+			args = append(args, symv("len(list)"))
+		case strings.HasSuffix(a.Type().String(), "ast.DType"):
+			args = append(args, symv("keyTag"))
+			hasTag = true
+		default:
+			if c2, isC := a.(*ssa.Call); isC && c2.Call.StaticCallee() != nil && c2.Call.StaticCallee().Name() == "ToInt" && len(c2.Call.Args) == 1 {
+				args = append(args, symv("K"))
+				res.keyVal = unwrapMakeIface(c2.Call.Args[0])
+			} else if _, isI := a.Type().Underlying().(*types.Interface); isI && res.keyVal == nil {
+				args = append(args, symv("key"))
+				res.keyVal = unwrapMakeIface(a)
+			} else {
+				args = append(args, symv(fmt.Sprintf("p%d", i)))
+			}
+		}
+	}
+	cfg := &specCfg{MaxLoop: 2, MaxDepth: 3, MaxVisits: 100000}
+	cfg.Call = func(fn *ssa.Function, c *ssa.Call, nth int, as []sval) (sval, bool) {
+		if cal := c.Call.StaticCallee(); cal != nil {
+			switch cal.Name() {
+			case "ToInt":
+				if len(as) == 1 && strings.Contains(as[0].String(), "key") {
+					return symv("K"), true
+				}
+			case "StartPos", "NodeStartPos":
+				return symv("pos"), true
+			}
+		}
+		return stdErrCall(fn, c, nth, as)
+	}
+	outs, ab := cfg.run(h, args)
+	if ab != "" || len(outs) == 0 {
+		res.detail = "helper " + h.Name() + " could not be specialised: " + ab
+		return res
+	}
+	res.norm, res.tagInside = true, hasTag
+	nSucc := 0
+	const L = "len(list)"
+	for _, o := range outs {
+		if len(o.Vals) != 2 {
+			res.norm = false
+			continue
+		}
+		mv := o.Vals[m]
+		if markBool {
+			if mv.isConst() && !constant.BoolVal(mv.c) {
+				continue
+			}
+			if !mv.isConst() {
+				res.norm = false
+				res.detail = "the success flag of an outcome is not decided: " + mv.String()
+				continue
+			}
+		} else if !mv.nil {
+			continue // an error
+		}
+		nSucc++
+		lits := map[string]bool{}
+		for _, cd := range condsOnly(o.Cond) {
+			lits[canonLit(cd)] = true
+		}
+		has := func(pos, neg string) bool { return lits["+"+pos] || lits["-"+neg] }
+		v := stripParens(o.Vals[k].String())
+		switch v {
+		case "K":
+			if !(has("K >= 0", "K < 0") && has("K < "+L, "K >= "+L)) {
+				res.norm = false
+				res.detail = "outcome v = K lacks 0 ≤ K < len(list): " + strings.Join(condsOnly(o.Cond), " && ")
+			}
+		case L + " + K", "K + " + L:
+			s := "(" + v + ")"
+			if !(has("K < 0", "K >= 0") && has(s+" >= 0", s+" < 0") && has(s+" < "+L, s+" >= "+L)) {
+				res.norm = false
+				res.detail = "outcome v = len(list)+K lacks K < 0 ≤ v < len(list): " + strings.Join(condsOnly(o.Cond), " && ")
+			}
+		default:
+			res.norm = false
+			res.detail = "a successful outcome yields " + v + ", neither K nor len(list)+K"
+		}
+		if hasTag && !(lits[fmt.Sprintf("+%d == keyTag", kInt)] || lits[fmt.Sprintf("+keyTag == %d", kInt)]) {
+			res.tagInside = false
+		}
+	}
+	if nSucc == 0 {
+		res.norm = false
+		res.detail = "no successful outcome"
+	}
+	if res.norm && res.detail == "" {
+		res.detail = fmt.Sprintf("%s specialised: %d successful outcome(s), each v = K with 0 ≤ K < len(list) or v = len(list)+K with K < 0 ≤ v < len(list)", h.Name(), nSucc)
+	}
+	return res
 }
